@@ -322,6 +322,12 @@ func (vc *FnVC) doAlloc(x *ssa.Alloc, st *State) {
 	r := vc.newRef(st, "new")
 	vc.setTerm(x, r)
 	vc.zeroInit(st, r, t)
+	if _, isStruct := t.Underlying().(*types.Struct); !isStruct && privateCell(x) {
+		if _, isArr := t.Underlying().(*types.Array); !isArr {
+			comp, _ := vc.cellComp(t)
+			vc.privCells = append(vc.privCells, privCell{ref: r, comp: comp})
+		}
+	}
 }
 
 // zeroInit assumes that the fresh object at r holds zero values.
@@ -510,6 +516,14 @@ func (vc *FnVC) doUnOp(x *ssa.UnOp, st *State) {
 		if c, ok := vc.constCapture[x.X]; ok {
 			vc.vals[x] = Val{k: vTerm, tv: c}
 			return
+		}
+		if al, ok := x.X.(*ssa.Alloc); ok {
+			if v, ok := constCellAt(al, x); ok {
+				if _, defined := vc.vals[v]; defined || isConst(v) {
+					vc.vals[x] = vc.val(v)
+					return
+				}
+			}
 		}
 		a := vc.val(x.X)
 		t := x.Type()
